@@ -762,6 +762,21 @@ func (c *specCtx) call(x *SCall) Val {
 		return c.heapEq(x)
 	case "sameExcept":
 		return c.sameExcept(x)
+	case "be64", "be32", "be16":
+		// big-endian value of the bytes arr[off .. off+n)
+		if !argn(2) {
+			return c.intV("0")
+		}
+		av := c.eval(x.Args[0])
+		off := c.eval(x.Args[1])
+		arr := av.S
+		if av.Ty != nil {
+			if _, isSl := av.Ty.Underlying().(*types.Slice); isSl {
+				arr, _, _ = vc.sliceParts(av)
+			}
+		}
+		n := map[string]int64{"be64": 8, "be32": 4, "be16": 2}[x.Fun]
+		return c.intV(vc.beValue(arr, off.S, n))
 	case "u64":
 		v := c.eval(x.Args[0])
 		return c.intV(v.S)
